@@ -8,14 +8,19 @@
     region any more).  The same orders are then run with the name `sorted` neutralised inside
     ford.fortran_project, which drives the pipeline through arbitrary enumerations.  In every run the model
     (Out/Project.v idents_enum over the segments measured on the first run) must reproduce the identifier of
-    every entity, and the set-ordered phases (toposort, graphs) may only ask for entities that an earlier
-    by-file phase has asked for (bit0).
+    every entity, and the set-ordered phases (toposort of modules, toposorts of a scope's types, graph
+    construction) may only ask for entities that an earlier by-file or fixed phase has asked for (bit0).
+    Independently of the judge, the tracer records every FIRST request of an entity inside such a loop
+    (projects with graph: true and proc_internals: true are traced too, without running dot): it is reported
+    as a violation with the project as failing input.
     graph_emission: node order of every graph hop, child-edge order of every InheritedByGraph node, rows of
     the table that replaces an oversized graph, and ford.output.sort_by_name against the model.
 (b) the property on real runs (e2e): `python -m ford` in subprocesses, several PYTHONHASHSEED values, parallel
     in {0, 2, 8}, output directory absent / stale from another project / from the same project, the same
     project moved to another directory, graphs and graph tables (graph_maxnodes) with equally labelled
-    neighbours; recursive byte comparison; ANY difference is a VIOLATION.
+    neighbours, same-seed repeats of projects with equally named types / inherited generic bindings / internal
+    procedures (object ids vary from process to process); recursive byte comparison; ANY difference is a
+    VIOLATION.
 (c) findings: the one open finding is replayed (KNOWN-FINDING line); the witnesses of the fixed findings are
     regression inputs.
 """
@@ -735,6 +740,9 @@ def finish(chk):
         checker_cmd="make theories/Props/C12.vo && coqc theories/Props/C12.v (Print Assumptions)",
         assumptions=["7-bit names", "what one file's entities request inside one loop does not depend on the "
                      "other files (checked on every traced run)",
-                     "the order of the rank-ordered loops and of the list pages is a function of the identifiers "
-                     "already assigned (fixed phases: checked to be the same sequence in all real runs)",
+                     "the order of the rank-ordered loops, of graph_all's collecting loop and of the list pages is a "
+                     "function of the identifiers already assigned (fixed phases: checked to be the same sequence "
+                     "in all real traced runs)",
+                     "loops ordered by sets of objects only repeat requests (checked: a first request there is a "
+                     "violation)",
                      "equally named modules are never USEd in the generated projects"])
